@@ -223,7 +223,7 @@ def run_check(pid, tier, harnesses, level="model_checking", assumptions=(), expl
                 tried += 1
                 try:
                     ok, cp, cf = confirm(h, f, h.solvers[0])
-                except Exception:
+                except (Exception, vsym.HarnessError):
                     errors.append(dict(harness=h.name, kind="replay-crash", tb=traceback.format_exc()[-1500:]))
                     continue
                 last = cp
@@ -262,7 +262,7 @@ def run_check(pid, tier, harnesses, level="model_checking", assumptions=(), expl
             for solver in h.solvers:
                 try:
                     cp = vsym.run_concrete(lambda E: (env.for_path(E, solver), h.fn(E))[1], w, tol=h.tol)
-                except Exception:
+                except (Exception, vsym.HarnessError):
                     errors.append(dict(harness=h.name, kind="witness-crash", tb=traceback.format_exc()[-1500:]))
                     continue
                 nval += 1
